@@ -1,5 +1,6 @@
 import WmModel.Props.C07Locks
 import WmModel.Props.C07Close
+import WmModel.Props.C07Dec
 import WmModel.Props.C07Term
 import WmModel.Props.C05Reg
 import WmModel.Props.C07
@@ -28,3 +29,12 @@ import WmModel.Props.C07
 #print axioms Wm.GcReg.close_terminates
 #print axioms Wm.GcReg.after_close_returned
 #print axioms Wm.GcReg.close_dissolves_deadlock
+#print axioms Wm.GcDec.dec_never_panics
+#print axioms Wm.GcDec.dec_close_never_stuck
+#print axioms Wm.GcDec.dec_quiescent_closed
+#print axioms Wm.GcDec.dec_steps_bounded
+#print axioms Wm.GcDec.dec_close_terminates
+#print axioms Wm.GcDec.dec_after_close
+#print axioms Wm.GcDec.dec_forwarding
+#print axioms Wm.GcDec.dec_one_pump_per_channel
+#print axioms Wm.GcDec.dec_witness
